@@ -1391,6 +1391,10 @@ SyntaxVisitor::Action TypeChecker::visitArraySubscriptExpression(
 SyntaxVisitor::Action TypeChecker::visitTypeTraitExpression(
         const TypeTraitExpressionSyntax* node)
 {
+    // The operand is absent after a syntax error (as in `sizeof ;').
+    if (!node->tyReference())
+        return typeCheckError(node);
+
     switch (node->tyReference()->kind()) {
         case SyntaxKind::ExpressionAsTypeReference: {
             auto exprAsTy = node->tyReference()->asExpressionAsTypeReference();
